@@ -1459,7 +1459,11 @@ class Interp:
             if name == "index":
                 return ("fn", "index", [recv] + list(args))
             if name == "pop":
-                return l.pop() if l and not args else ("fn", "pop", [recv])
+                if l and not args:
+                    return l.pop()
+                if l and len(args) == 1 and args[0][0] == "c" and isinstance(args[0][1], int) and -len(l) <= args[0][1] < len(l) and len(recv) == 2:
+                    return l.pop(args[0][1])
+                return ("fn", "pop", [recv])
             if name == "copy":
                 return ("list", list(l))
             return ("fn", "list." + name, [recv] + list(args))
